@@ -247,8 +247,75 @@ def judge(chk, traces):
                       % (name, v['badline'] - 1, scn['name'], scn['N'], json.dumps(scn['opts'], sort_keys=True)),
                       {'scenario': scn, 'origin': origin, 'events': hdr['ev'], 'rows': o.get('rows'),
                        'order': [c[0] for c in o.get('choices', [])]})
+    strict_validate(chk, keep, batch)
     chk.rule = ('complete crawls of scripted sites by the real application (Builder -> Application.run) over the '
                 'in-memory network; distinct = distinct recorded event traces')
+
+
+MODEL_KINDS = {'page': 'page', 'redirect': 'redirect', 'notfound': 'notfound', 'error500': 'error', 'drop': 'error'}
+
+
+def strict_eligible(scn):
+    o = scn['opts']
+    if scn['start'] != [1] or o['spanhosts'] or not o['strong'] or not o['recursive'] or o['pagereq'] or o['auth']:
+        return False
+    hs = cs.hosts_of(scn)
+    if len(hs) > 2 or hs[0] != 'a.test':
+        return False
+    for u in scn['urls']:
+        if u['kind'] not in MODEL_KINDS or u['rejected'] or u['nofollow']:
+            return False
+        if u['kind'] == 'redirect' and (not u.get('rto') or u.get('location') or u.get('code', 301) in (307, 308)):
+            return False
+        if any(l.get('inline') for l in u['links']):
+            return False
+    for h, r in scn['robots'].items():
+        if r['kind'] not in ('rules', 'missing', 'error500') or r.get('extra') or r.get('agent', '*') != '*':
+            return False
+    return True
+
+
+def strict_validate(chk, keep, batch):
+    """Is each recorded crawl a behaviour of Crawl.tla on its site?  Rejection = MODEL-DRIFT, never an alarm."""
+    from concurrent.futures import ThreadPoolExecutor
+    groups = {}
+    for (scn, origin, o), hdr in zip(keep, batch):
+        if not strict_eligible(scn):
+            continue
+        h = dict(hdr)
+        by = {u['id']: u for u in scn['urls']}
+        h['mkind'] = [MODEL_KINDS[by[i]['kind']] for i in range(1, h['U'] + 1)]
+        hs = cs.hosts_of(scn)
+        h['mrobots'] = [{'rules': 'rules', 'missing': 'missing', 'error500': 'error'}[
+            scn['robots'].get(x, {'kind': 'missing'})['kind']] for x in hs]
+        op = scn['opts']
+        key = (h['U'], scn['N'], op['level'], op['tries'], op['maxredir'], op['robots'])
+        groups.setdefault(key, []).append((scn, h))
+
+    def one(key):
+        U, N, lv, tr, mr, rb = key
+        cfg = ('SPECIFICATION TSpec\nCONSTANTS NU = %d N = %d Level = %d Tries = %d MaxRedir = %d RobotsOn = %s '
+               'MaxLinks = 0 Kinds = {"page"} Foreign = TRUE AllowCrash = TRUE ChildrenFirst = TRUE\n'
+               'CONSTRAINT Record\nPOSTCONDITION Post\nCHECK_DEADLOCK FALSE\n'
+               % (U, N, lv, tr, mr, 'TRUE' if rb else 'FALSE'))
+        return tlc.validate_batch('CrawlTrace', cfg, [h for (_, h) in groups[key]], chunk=300, timeout=1800)
+
+    keys = sorted(groups)
+    with ThreadPoolExecutor(max_workers=6) as ex:
+        results = list(ex.map(one, keys))
+    nstrict = nacc = 0
+    for key, (verdicts, stats) in zip(keys, results):
+        chk.trace_stats(stats)
+        for (scn, h), v in zip(groups[key], verdicts):
+            nstrict += 1
+            if v['accepted']:
+                nacc += 1
+            else:
+                nxt = h['ev'][v['matched']] if v['matched'] < len(h['ev']) else None
+                chk.drifted('Crawl.tla rejects event %d %s of scenario %s (model clause %d)'
+                            % (v['matched'], json.dumps(nxt)[:160], scn['name'], v['bad']))
+    chk.extra['strict_traces'] = nstrict
+    chk.extra['strict_accepted'] = nacc
 
 
 def signature(scn, clause, hdr, v, o):
